@@ -30,8 +30,19 @@ import (
 //     directly (recursive form), or through a "set once" variable initialised
 //     to a negative sentinel (iterative form).
 //
+//   - the tag test and the terminator test are decided on WHICH of the 256
+//     values of the length byte reach the code that follows a pointer, reads a
+//     label or leaves with success (c09ByteDispatch: branch conditions that
+//     are functions of the length byte alone are evaluated with
+//     wire.EvalPure, in-module predicate helpers included), so b&0xC0 == 0xC0,
+//     b >= 0xC0, b>>6 == 3, isCompressionPointer(b) and a switch are the same
+//     thing; the length byte may be read several times in one iteration;
+//   - a success return whose offset is a φ joining several ways out (the
+//     pointer branch leaving through the common tail) is judged per way out.
+//
 // When the input buffer flows into code that was not analysed (wire.Dec
-// escapes) the clauses are reported NOT DECIDED, never as violations.
+// escapes), or a branch on the length byte cannot be evaluated, the clauses
+// are reported NOT DECIDED, never as violations.
 
 var c09DecKeys = []string{
 	"DecodeDomainName: label follows its length byte and is as long as it says",
